@@ -50,6 +50,8 @@ options = st.fixed_dictionaries(
         "natural": st.lists(st.booleans(), min_size=5, max_size=5),
         "tie_first": st.booleans(),
         "tie_over_grace": st.sampled_from([False, False, False, True]),
+        "sub_leading_grace": st.booleans(),
+        "sub_midbar": st.integers(0, 3),
         "records": st.booleans(),
         "local_comment": st.booleans(),
         "dynam": st.booleans(),
@@ -62,7 +64,7 @@ options = st.fixed_dictionaries(
 )
 
 
-LATER_OPTIONS = {"tie_over_grace": False}
+LATER_OPTIONS = {"tie_over_grace": False, "sub_leading_grace": False, "sub_midbar": 0}
 
 
 def kern_pitch(step, alter, octave, natural):
@@ -100,6 +102,32 @@ def render(model, opt):
             spines[-1]["sub"] = {"voice": v, "first": fb, "last": last}
         else:
             spines.append({"voice": v, "sub": None})
+    # a split inside the first bar of the sub-spine: at an onset that the parent spine shares (the reader takes the position of a
+    # line from the first spine of the part) and that does not cut a tuplet group; earlier events of the voice are not written
+    for k, sp in enumerate(spines):
+        if sp["sub"] is None:
+            continue
+        sub = sp["sub"]
+        sub["first_t"] = model.bars[sub["first"]][0]
+        if opt["sub_midbar"]:
+            evs = model.vb[sub["voice"]][sub["first"]]
+            parent = spine_events_cached(model, spines, k, sub["first"])
+            ponsets = set(e["t"] for e in parent)
+            cand = [e["t"] for e in evs[1:] if (e["tup"] is None or e["tup"][1] == 0) and e["t"] in ponsets]
+            if cand:
+                sub["first_t"] = cand[(opt["sub_midbar"] - 1) % len(cand)]
+
+    def sub_events(k, b):
+        sub = spines[k]["sub"]
+        return [e for e in (model.vb[sub["voice"]][b] or []) if e["t"] >= sub["first_t"]]
+
+    if opt["sub_leading_grace"]:
+        # a sub-spine that opens after the first bar starts with a grace note: its first token stands on a line where the parent spine has a null token
+        for k, sp in enumerate(spines):
+            if sp["sub"] is not None and sp["sub"]["first"] > 0:
+                ev = sub_events(k, sp["sub"]["first"])[0]
+                if ev["kind"] != "rest" and not ev["graces"] and "tie_prev" not in ev["notes"][0]:
+                    ev["graces"] = [{"id": "lg%d" % k, "kind": "grace", "step": "D", "alter": 0, "octave": 4, "sym": {"type": "eighth"}}]
     n = len(spines)
     mode = opt["mode"]
     same_part = mode in ("same-part", "same-instrument")
@@ -116,7 +144,7 @@ def render(model, opt):
         if sp["sub"] is not None:
             col = []
             for b in range(sp["sub"]["first"], sp["sub"]["last"] + 1):
-                col.extend(model.vb[sp["sub"]["voice"]][b] or [])
+                col.extend(sub_events(k, b))
             seq[(k, 1)] = col
     tie_ok = set()
     over_grace = []
@@ -332,7 +360,7 @@ def render(model, opt):
                         exp_of(k)["clefs"].append((model.q(s), staff_of(k)) + CLEFS[ci][1:])
         # open sub-spines that start with this bar
         for k, sp in enumerate(spines):
-            if sp["sub"] is not None and sp["sub"]["first"] == b:
+            if sp["sub"] is not None and sp["sub"]["first"] == b and sp["sub"]["first_t"] == s:
                 cells = []
                 for kk in range(n):
                     cells.append("*^" if kk == k else "*")
@@ -348,8 +376,8 @@ def render(model, opt):
         cols = {}
         for k, sp in enumerate(spines):
             cols[(k, 0)] = spine_events_cached(model, spines, k, b)
-            if active_sub[k]:
-                cols[(k, 1)] = model.vb[sp["sub"]["voice"]][b]
+            if active_sub[k] or (sp["sub"] is not None and sp["sub"]["first"] == b):
+                cols[(k, 1)] = sub_events(k, b)
         beams = {}
         if opt["beam"]:
             for key, evs in cols.items():
@@ -365,6 +393,17 @@ def render(model, opt):
         times = sorted(set(ev["t"] for evs in cols.values() for ev in evs))
         at = {key: {ev["t"]: ev for ev in evs} for key, evs in cols.items()}
         for t in times:
+            for k, sp in enumerate(spines):
+                if sp["sub"] is not None and sp["sub"]["first"] == b and sp["sub"]["first_t"] == t and not active_sub[k]:
+                    cells = []
+                    for kk in range(n):
+                        cells.append("*^" if kk == k else "*")
+                        if active_sub[kk]:
+                            cells.append("*")
+                    if opt["dynam"]:
+                        cells.append("*")
+                    rows.append(cells)
+                    active_sub[k] = True
             ng = max(len(at[key][t]["graces"]) if t in at[key] else 0 for key in cols)
             for j in range(ng):
                 def gtok(k, sub):
@@ -419,6 +458,7 @@ def render(model, opt):
         "same_part": same_part,
         "nspines": n,
         "has_split": any(sp["sub"] is not None for sp in spines),
+        "split_inside_bar": any(sp["sub"] is not None and sp["sub"]["first_t"] != model.bars[sp["sub"]["first"]][0] for sp in spines),
         "dropped_ties": len(dropped_ties),
         "kept_ties": len(tie_ok),
         "ties_over_grace": len(over_grace),
